@@ -61,6 +61,13 @@ class C10(Spec):
                 ("arbiter-empty-queue", SETUP + ["C 3 set q a", "C 3 set-safe q -2 x", "C 3 set q y", "C 3 get-safe q"] + PROBE),
                 ("inc-overflow", SETUP + ["C 1 set n 2147483647", "C 1 increment n"] + PROBE)]
 
+    def extra_stage(self, tier, seed):
+        from vlib import transport
+        garbage = ["\\xff\\xfe\\xfd", "get\\x20\\xc3", "\\x00\\x00\\x00", "\\x0d", "get a\\x0d", ";;;;;;;;", "set\\x20k\\x20" + "v" * 70000, "rp 1 " * 3000 + "get a", "rp\\x201\\x20\\x20" * 3000 + "get a",
+                   "x" * 300 + "\\xc3\\xa9" * 200, "\\xe2\\x82", "increment a 99999999999999999999", "election candidate x", "replicate-since n1 x", "use-db", "set-safe a x y", "keys \\xf0\\x9f\\x98\\x80*"]
+        if tier == "quick": garbage = garbage[:12]
+        return transport.liveness_stage("C10", garbage)
+
     def generate(self, tier, seed):
         rng = core.XorShift(seed)
         ls = lines_for(tier, rng)
